@@ -292,6 +292,8 @@ impl BuildJob<'_> {
         dof.set_static(ptx.state().env())?;
         dof.save(&mut ptx)?;
         let ps = ptx.commit().map_err(RedoError::opaque_error)?;
+        #[cfg(feature = "verif-hooks")]
+        crate::verif::lock_event("job_start", sf.id(), t.as_str());
         logs::meta("do", state::target_relpath(ps.env(), &t)?.as_str(), None);
 
         // Wrap out_file in a Cell, since we drop it in the subprocess.
@@ -421,6 +423,8 @@ impl BuildJob<'_> {
                 eprintln!("{:?}: {}", &t, e);
                 return EXIT_BUILD_JOB_ERROR;
             }
+            #[cfg(feature = "verif-hooks")]
+            crate::verif::lock_event("job_done", _lock.file_id(), &rv.to_string());
             rv
         }))
     }
